@@ -80,7 +80,14 @@ fn gen_scenario(seed: u64) -> Scenario {
     let net_of: Vec<Vec<usize>> = machines.iter().map(|m| m.nets.clone()).collect();
     let taps_of = |n: usize| -> Vec<u64> { macs.iter().enumerate().flat_map(|(mi, ms)| ms.iter().enumerate().filter(|(s, _)| net_of[mi][*s] == n).map(|(_, m)| *m).collect::<Vec<_>>()).collect() };
     let instants: Vec<u64> = (0..3).map(|_| r.below(6) * 1000).collect();
+    // some machines do not run the protocol the frames are addressed to (no recorder at all): a
+    // frame reaching their tap is refused there (ReceiveError::Protocol) and must not disturb the
+    // delivery to the other taps
+    let lacking: Vec<bool> = (0..n_machines).map(|mi| mi > 0 && r.chance(1, 4)).collect();
     for mi in 0..n_machines {
+        if lacking[mi] {
+            continue;
+        }
         let mut script = vec![];
         let n_send = *r.pick(&[0usize, 1, 2, 3, 4, 6]);
         for _ in 0..n_send {
@@ -231,13 +238,14 @@ fn analyse(sc: &Scenario, res: &RunResult, rep: &mut CaseReport) {
                         // what the recorder on that machine saw
                         let ds = demux_by_cause.get(&e.id).cloned().unwrap_or_default();
                         let exp_tap = tap_of.get(&(*net, *mac));
-                        let ok = ds.len() == 1
-                            && match (&ds[0].ev, exp_tap) {
+                        // a machine that does not run the addressed protocol sees nothing (the tap refuses the frame)
+                        let lacks = exp_tap.map(|(mi, _)| sc.machines[*mi].apps.is_empty()).unwrap_or(false);
+                        let ok = if lacks { ds.is_empty() } else { ds.len() == 1 && match (&ds[0].ev, exp_tap) {
                                 (Ev::Demux { machine, payload, link: Some(l), .. }, Some((mi, slot))) => {
                                     machine == mi && payload == bytes && l.slot == *slot && l.src == *smac && l.dst == *dst && l.mtu as usize == sc.nets[*net].mtu.map(|m| m as usize).unwrap_or(65535)
                                 }
                                 _ => false,
-                            };
+                            } };
                         if !ok {
                             rep.fail(
                                 format!("network {}: frame from MAC {} to {} handed to tap {}: the protocol named in the frame saw {:?}", net, smac, fmt_mac(*dst), mac, ds.iter().map(|d| format!("{:?}", d.ev)).collect::<Vec<_>>()),
@@ -395,7 +403,64 @@ fn cfg_lines_of(spec: &str) -> Vec<String> {
     }
 }
 
+/// `c05-attach`: taps attached to one network from several threads at once (machines of a large
+/// simulation may be built in parallel) must still get pairwise distinct hardware addresses, none
+/// of them the broadcast address, and every one of them must be registered with the network.
+/// Oracle-only (the allocator's sequential behaviour is covered by `c05_mac_distinct` and the
+/// `link` run; what a model cannot exhibit here is the interleaving of real threads).
+fn run_attach(args: &Args) {
+    use elvis_core::protocols::Pci;
+    use elvis_core::Network;
+    let mut out = Out::new(&args.out);
+    let mut rng = Rng::new(args.seed);
+    for c in 0..args.cases {
+        let threads = *rng.pick(&[2usize, 4, 8, 16]);
+        let per = *rng.pick(&[10usize, 40, 120]);
+        let slots = *rng.pick(&[1usize, 1, 2, 3]);
+        out.begin_case(c);
+        let net = Network::basic();
+        let handles: Vec<_> = (0..threads)
+            .map(|_| {
+                let net = net.clone();
+                std::thread::spawn(move || {
+                    let mut macs = vec![];
+                    for _ in 0..per {
+                        let pci = Pci::new((0..slots).map(|_| net.clone()));
+                        macs.extend(pci.mac_addresses());
+                    }
+                    macs
+                })
+            })
+            .collect();
+        let mut all: Vec<u64> = vec![];
+        for h in handles {
+            all.extend(h.join().unwrap_or_default());
+        }
+        let n = all.len();
+        let mut sorted = all.clone();
+        sorted.sort();
+        sorted.dedup();
+        let registered = net.verif_taps().len();
+        out.line(&format!("attach threads={} per={} slots={}", threads, per, slots), &format!("taps={} distinct={} registered={}", n, sorted.len(), registered));
+        out.count(&format!("attach.threads.{}", threads));
+        out.mark_nontrivial();
+        if sorted.len() != n {
+            out.fail(&format!("{} taps attached to one network from {} threads got only {} distinct hardware addresses", n, threads, sorted.len()), "mac-duplicate concurrent-attach");
+        } else if registered != n {
+            out.fail(&format!("{} taps attached but the network knows {} of them", n, registered), "tap-lost concurrent-attach");
+        }
+        if sorted.iter().any(|m| *m == BROADCAST) {
+            out.fail("a tap was given the broadcast address", "mac-broadcast");
+        }
+        out.end_case();
+    }
+    out.finish("taps attached to one network concurrently from 2..16 threads (10..120 Pci instances each, 1..3 slots); non-trivial always; distinct = hash of the op line");
+}
+
 pub fn run(args: &Args) {
+    if args.prop == "c05-attach" {
+        return run_attach(args);
+    }
     if is_worker(args) {
         worker_loop(|spec| execute(&cfg_lines_of(spec)));
         return;
